@@ -298,6 +298,35 @@ def check(repo, rep, tier):
         else:
             r4.ok(where, RT, "%s: no earlier registry module in its import closure" % nj)
 
+    # ---------------- R-C19-9  rows skipped because the row they are derived from failed
+    skips = {e[1] for s_, _st, _p in outs for e in s_.events if e[0] == "derived-skip"}
+    if skips:
+        r9 = rep.rule("R-C19-9", "a backend is skipped without an import attempt only if it imports a backend that just failed", floor=1)
+        rowmap9 = dict(rows)
+        order9 = [n_ for n_, _m in rows]
+        for dn in sorted(skips):
+            tbl = [n_ for n_ in m.tree.body if isinstance(n_, ast.Assign) and len(n_.targets) == 1 and norm(n_.targets[0]) == dn
+                   and isinstance(n_.value, ast.Dict)]
+            rebound = [x for x in ast.walk(m.tree) if isinstance(x, (ast.Name, ast.Attribute, ast.Subscript)) and not isinstance(x.ctx, ast.Load)
+                       and norm(x).split("[")[0] == dn]
+            if len(tbl) != 1 or len(rebound) != 1:
+                r9.violation("%s:1" % m.relpath, RT, dn, "the table of derived backends is not a module-level dict literal bound once",
+                             "derived/%s/table" % dn)
+                continue
+            for k_, v_ in zip(tbl[0].value.keys, tbl[0].value.values):
+                where = "%s:%s" % (m.relpath, k_.lineno)
+                if not (isinstance(k_, ast.Constant) and isinstance(v_, ast.Constant) and k_.value in rowmap9 and v_.value in rowmap9):
+                    r9.violation(where, RT, "%s: %s" % (norm(k_), norm(v_)), "entry does not name two registry rows", "derived/%s/%s" % (dn, norm(k_)))
+                    continue
+                dm, bm = rowmap9[k_.value], rowmap9[v_.value]
+                clo = import_closure(repo, dm) if dm in repo.modules else set()
+                if bm in clo and order9.index(v_.value) < order9.index(k_.value):
+                    r9.ok(where, RT, "%s -> %s" % (k_.value, v_.value), "%s imports %s (listed earlier): when that import has just failed, "
+                          "importing %s fails the same way, so skipping it selects the same backend" % (dm, bm, dm))
+                else:
+                    r9.violation(where, RT, "%s -> %s" % (k_.value, v_.value), "%s is skipped whenever %s failed to load, but %s" % (
+                        k_.value, v_.value, "it does not import %s: it could have loaded" % bm if bm not in clo else
+                        "%s is listed after it, so its failure is never known in time" % v_.value), "derived/%s/%s" % (dn, k_.value))
     # ---------------- R-C19-5
     r5 = rep.rule("R-C19-5", "every registry module binds the complete backend interface", floor=8)
     it = get_interp(repo)
